@@ -36,6 +36,24 @@ func c15Attach(rc *plugin.ReattachConfig, wire string) (*c15Client, error) {
 	return &c15Client{c: c, cli: raw.(vp.Cli)}, nil
 }
 
+// allExited polls every client of the (dead) plugin for up to 8 s: reattached clients notice through a
+// once-a-second pid poll.
+func allExited(clients []*c15Client) []bool {
+	out := make([]bool, len(clients))
+	t0 := time.Now()
+	for {
+		all := true
+		for i, c := range clients {
+			out[i] = c.c.Exited()
+			all = all && out[i]
+		}
+		if all || time.Since(t0) > 8*time.Second {
+			return out
+		}
+		time.Sleep(50 * time.Millisecond)
+	}
+}
+
 func TestC15(t *testing.T) {
 	forCases(t, 12, func(c spec.Case, e Em) {
 		var p spec.C15Case
@@ -176,6 +194,9 @@ func TestC15(t *testing.T) {
 					}
 					cl.c.Kill()
 					s.OK, s.Exited = true, cl.c.Exited()
+					if p.Mode == "proc" {
+						s.AllExited = allExited(clients)
+					}
 					if p.Mode == "testmode" {
 						s.Serving = serving()
 						select {
@@ -192,6 +213,7 @@ func TestC15(t *testing.T) {
 						time.Sleep(10 * time.Millisecond)
 					}
 					s.OK, s.Exited = true, clients[0].c.Exited()
+					s.AllExited = allExited(clients)
 				case "cancel":
 					cancel()
 					select {
